@@ -65,6 +65,12 @@ class PoolMonitor(object):
             st.obligations.append(Obligation("%s/monitor[retire_decision_and_uncount_are_atomic]" % ex.env.fn.key, st.hyps(),
                                              goal, st.sig, "monitor", "retire_decision_and_uncount_are_atomic",
                                              ex.env.contract.props))
+            # C10 (safety core of the progress clause): a worker leaves only if the workers that stay are enough for every
+            # task that is not finished - queued, running, or dequeued by a worker that has not counted itself active yet
+            q = st.read(Val.ref(me), "_queue")
+            enough = Val.i(st.read(Val.ref(me), NB)) >= Val.i(st.read(Val.ref(q), "unfinished_tasks"))
+            st.obligations.append(Obligation("%s/monitor[retiring_leaves_enough_workers]" % ex.env.fn.key, st.hyps(), enough,
+                                             st.sig, "monitor", "retiring_leaves_enough_workers", ex.env.contract.props))
         if st.locks:
             st.locks.pop()
         if not st.locks:
